@@ -53,6 +53,10 @@ pub enum MEdit {
     /// every number found at the generic pointer `gptr` (array indices written as `*`) is
     /// multiplied by `factor` (all windows ten times wider, all layers a tenth as thick, ...)
     ScaleAll { gptr: String, factor: f64 },
+    /// the first element of collection `b` gets the id of the first element of collection `a`
+    /// and every link to it follows: ids stay unique inside each collection and the model stays
+    /// closed, but one id now exists in two collections
+    ShareIdAcross { a: String, b: String },
 }
 
 impl MEdit {
@@ -86,6 +90,7 @@ impl MEdit {
             MEdit::MoveBuildingZ { .. } => "edit.move_building_z",
             MEdit::SetAll { .. } => "edit.set_all",
             MEdit::ScaleAll { .. } => "edit.scale_all",
+            MEdit::ShareIdAcross { .. } => "variant.id_shared_across_collections",
         }
     }
     /// pointer with array indices replaced by `*` (stratification / grouping)
@@ -507,6 +512,70 @@ pub fn apply(m: &mut Value, e: &MEdit, serial: u64) -> bool {
                 }
             }
             any
+        }
+        MEdit::ShareIdAcross { a, b } => {
+            let pa = match closure::COLLECTIONS.iter().find(|c| c.0 == a.as_str()) {
+                Some((_, p)) => *p,
+                None => return false,
+            };
+            let pb = match closure::COLLECTIONS.iter().find(|c| c.0 == b.as_str()) {
+                Some((_, p)) => *p,
+                None => return false,
+            };
+            let ida = match closure::collection(m, pa).first().and_then(|e| e.get("id")).and_then(|v| v.as_str()) {
+                Some(i) => i.to_string(),
+                None => return false,
+            };
+            let idb = match closure::collection(m, pb).first().and_then(|e| e.get("id")).and_then(|v| v.as_str()) {
+                Some(i) => i.to_string(),
+                None => return false,
+            };
+            if ida == idb || closure::collection(m, pb).iter().any(|e| e.get("id").and_then(|v| v.as_str()) == Some(ida.as_str())) {
+                return false;
+            }
+            // every link whose target collection is `b` and that points at idb follows
+            let mut link_ptrs: Vec<String> = vec![];
+            fn walk(v: &Value, path: &mut String, out: &mut Vec<(String, String)>) {
+                match v {
+                    Value::String(s) => out.push((path.clone(), s.clone())),
+                    Value::Array(a) => {
+                        for (i, e) in a.iter().enumerate() {
+                            let l = path.len();
+                            path.push_str(&format!("/{}", i));
+                            walk(e, path, out);
+                            path.truncate(l);
+                        }
+                    }
+                    Value::Object(o) => {
+                        for (k, e) in o {
+                            let l = path.len();
+                            path.push('/');
+                            path.push_str(k);
+                            walk(e, path, out);
+                            path.truncate(l);
+                        }
+                    }
+                    _ => {}
+                }
+            }
+            let mut strs = vec![];
+            walk(m, &mut String::new(), &mut strs);
+            for (p, val) in strs {
+                if val == idb && link_target_collection(&p) == Some(b.as_str()) {
+                    link_ptrs.push(p);
+                }
+            }
+            let id_ptr = format!("/{}/0/id", pb.join("/"));
+            match m.pointer_mut(&id_ptr) {
+                Some(v) => *v = json!(ida),
+                None => return false,
+            }
+            for p in link_ptrs {
+                if let Some(v) = m.pointer_mut(&p) {
+                    *v = json!(ida);
+                }
+            }
+            true
         }
         MEdit::ScaleAll { gptr, factor } => {
             let mut ptrs: Vec<String> = vec![];
